@@ -138,7 +138,31 @@ Blocked(doc, op, path) == Impossible(op, path) \/ HasDesc(path)
 \* ------------------------------------------------------------------ modifiers (menu of the checks)
 \* "foreign": the modifier returns a value of a foreign Go kind for the data (a plain int64 / string / []any / map / nil on gen data, a
 \* gen.Node on simple data); md.v is the value it denotes
-ApplyMod(md, x) == CASE md.m \in {"const", "foreign"} -> md.v [] md.m = "wrap" -> ANode(<<x>>) [] OTHER -> x    \* "same": reports unchanged
+\* modifiers that hand back the collection they were given (round 7): "trunc" an array -> the same backing array one element shorter
+\* (a re-slice), "grow" an array -> the argument with 7 appended, "mapset" an object -> the same map with member zz = 7; every other
+\* element is reported unchanged.  The law is the ordinary one: afterwards the location holds what the modifier returned.
+ApplyMod(md, x) == CASE md.m \in {"const", "foreign"} -> md.v [] md.m = "wrap" -> ANode(<<x>>)
+                     [] md.m = "trunc" -> (IF IsArr(x) /\ Len(x.a) > 0 THEN ANode(SubSeq(x.a, 1, Len(x.a) - 1)) ELSE x)
+                     [] md.m = "grow" -> (IF IsArr(x) THEN ANode(Append(x.a, INode(7))) ELSE x)
+                     [] md.m = "mapset" -> (IF IsObj(x) THEN AddKey(x, "zz", INode(7)) ELSE x)
+                     [] OTHER -> x    \* "same": reports unchanged
+
+\* ------------------------------------------------------------------ `$` operands that point into the document (round 7)
+(* filter "eqp": `@ == $<rp>` / `@.key == $<rp>`, rp a chain of member names [k] and indexes [i] from the root.  The selection of a    *)
+(* mutator is the one Get makes in the document BEFORE the call (statement: "select the same locations Get does"), so the operand is     *)
+(* resolved in that document once and the fragment becomes the constant filter eqs / eqk; an operand that does not exist is Nothing,      *)
+(* which no element equals (the generators only emit operands that exist).                                                               *)
+RECURSIVE RAt(_, _)
+RAt(n, rp) == IF rp = <<>> THEN <<n>>
+              ELSE LET s == Head(rp) IN
+                   IF IsK(s) THEN (IF IsObj(n) /\ HasKey(n, s.k) THEN RAt(Member(n, s.k), Tail(rp)) ELSE <<>>)
+                   ELSE IF IsArr(n) /\ InRange(s.i, n) THEN RAt(n.a[Norm(s.i, Len(n.a)) + 1], Tail(rp)) ELSE <<>>
+ResF(f, root) == IF f.f = "filter" /\ f.op = "eqp"
+                 THEN LET r == RAt(root, f.rp)
+                          c == IF r = <<>> THEN [n |-> 0] ELSE r[1] IN
+                      IF "key" \in DOMAIN f THEN [f |-> "filter", op |-> "eqk", key |-> f.key, c |-> c] ELSE [f |-> "filter", op |-> "eqs", c |-> c]
+                 ELSE f
+ResM(m, root) == [m EXCEPT !.path = [i \in 1..Len(m.path) |-> ResF(m.path[i], root)]]
 
 \* graft: doc plus whatever mx has along the single location l (creation for the *One forms)
 RECURSIVE Graft(_, _, _)
